@@ -42,8 +42,18 @@ def roundtrip_case(case):
       j, jd, _, _ = kinematics.world_to_joint(sys, x, xd)
       return kinematics.inverse(sys, j, jd)
 
+    # the same poses with the other quaternion representative on every second link (-rot is the same orientation)
+    @jax.jit
+    def rt_flipped(q, qd):
+      x, xd = kinematics.forward(sys, q, qd)
+      sign = jp.where(jp.arange(x.rot.shape[0]) % 2 == 0, -1.0, 1.0)
+      j, jd, _, _ = kinematics.world_to_joint(sys, x.replace(rot=x.rot * sign[:, None]), xd)
+      return kinematics.inverse(sys, j, jd)
+
     q2, qd2 = rt(jp.asarray(q), jp.asarray(qd))
-    out = {'q2': np.asarray(q2).tolist(), 'qd2': np.asarray(qd2).tolist(), 'pipes': {}}
+    q3, qd3 = rt_flipped(jp.asarray(q), jp.asarray(qd))
+    out = {'q2': np.asarray(q2).tolist(), 'qd2': np.asarray(qd2).tolist(), 'q3': np.asarray(q3).tolist(),
+           'qd3': np.asarray(qd3).tolist(), 'pipes': {}}
     for pn in ('spring', 'positional'):
       pipe = importlib.import_module(f'brax.{pn}.pipeline')
 
@@ -159,6 +169,22 @@ def run(ctx):
         di += n
     if bad:
       ctx.violation(f'inverse(world_to_joint(forward(q, qd))) != (q, qd): {bad[1]}', info, {'call': 'kinematics', 'predicate': 'roundtrip_' + bad[0]})
+      continue
+    # a pose does not depend on the sign of its quaternion: the inverse image must not either
+    q3, qd3 = np.array(out['q3']), np.array(out['qd3'])
+    qi = 0
+    for li, l in enumerate(m['links']):
+      n = 7 if l['root'] == 'free' else len(l['stack'])
+      d = max(np.max(np.abs(q2[qi:qi + 3] - q3[qi:qi + 3])), c01_qdiff(q2[qi + 3:qi + 7], q3[qi + 3:qi + 7])) if l['root'] == 'free' \
+          else np.max(np.abs(q2[qi:qi + n] - q3[qi:qi + n]))
+      if d > 1e-8:
+        bad = ('q', f'link {li + 1}: q {q3[qi:qi + n].tolist()} from the poses with alternating quaternion signs, {q2[qi:qi + n].tolist()} from the poses as emitted')
+        break
+      qi += n
+    if bad is None and np.max(np.abs(qd2 - qd3)) > 1e-8:
+      bad = ('qd', f'qd {qd3.tolist()} from the poses with alternating quaternion signs, {qd2.tolist()} from the poses as emitted')
+    if bad:
+      ctx.violation(f'inverse image depends on the quaternion representative: {bad[1]}', info, {'call': 'kinematics', 'predicate': 'representative_' + bad[0]})
       continue
     for pn, po in out['pipes'].items():
       if np.max(np.abs(np.array(po['q']) - np.array(po['qi']))) > 1e-9 or np.max(np.abs(np.array(po['qd']) - np.array(po['qdi']))) > 1e-9:
